@@ -3,8 +3,13 @@ import Driver.Util
 namespace Driver.Bridge
 open Paloma.Bridge
 
+/-- the skyway keeper fixture registers remote key `i` for validator `i` (five validators) -/
+def fixtureKeys : List (Nat × Nat) := [(1, 1), (2, 2), (3, 3), (4, 4), (5, 5)]
+
+def initSt : St := { St.init with keys := fixtureKeys }
+
 structure DSt where
-  s : St := St.init
+  s : St := initSt
   nTok : Nat := 2
   nUsers : Nat := 3
 
@@ -37,10 +42,12 @@ def showRes : Res → String
   | .noop => "noop"
   | .rejected => "rejected"
 
-def parseFault? (s : String) : Option Fault :=
-  match s.splitOn ":" with
-  | [a, b] => do pure { target := ← parseNat? a, nth := ← parseNat? b }
-  | _ => none
+/-- `k:n` = the n-th call of class k fails (`0:0` = no fault); several points are joined by `+` -/
+def parseFault? (s : String) : Option Fault := do
+  let pts ← (s.splitOn "+").mapM fun x => match x.splitOn ":" with
+    | [a, b] => do pure (← parseNat? a, ← parseNat? b)
+    | _ => none
+  pure { points := pts.filter (fun p => p.1 != 0) }
 
 def parseUsers? (s : String) : Option (List Nat) := parseNatList? s
 
@@ -53,7 +60,7 @@ def step (d : DSt) (args : List String) : DSt × String :=
   match args with
   | ["reset", n] =>
     match parseNat? n with
-    | some n => ({ s := St.init, nTok := n, nUsers := 3 }, "ok")
+    | some n => ({ s := initSt, nTok := n, nUsers := 3 }, "ok")
     | none => (d, "bad-op")
   | ["fund", u, t, a] =>
     match parseNat? u, parseNat? t, parseNat? a with
@@ -62,13 +69,13 @@ def step (d : DSt) (args : List String) : DSt × String :=
   | ["settax", t, n, dn, ex] =>
     match parseNat? t, parseNat? n, parseNat? dn, parseUsers? ex with
     | some t, some n, some dn, some ex =>
-      let d' := { d with s := { d.s with tax := updO d.s.tax t (some { num := n, den := dn, exempt := ex }) } }
+      let d' := { d with s := setTax d.s t (some { num := n, den := dn, exempt := ex }) }
       (d', showState d')
     | _, _, _, _ => (d, "bad-op")
   | ["setlimit", t, p, l, ex] =>
     match parseNat? t, parseNat? p, parseNat? l, parseUsers? ex with
     | some t, some p, some l, some ex =>
-      let d' := { d with s := { d.s with limit := updO d.s.limit t (some { period := p, limit := l, exempt := ex }) } }
+      let d' := { d with s := setLimit d.s t (some { period := p, limit := l, exempt := ex }) }
       (d', showState d')
     | _, _, _, _ => (d, "bad-op")
   | ["send", f, u, t, a, h] =>
@@ -103,14 +110,20 @@ def step (d : DSt) (args : List String) : DSt × String :=
       let r := if recv == 0 then none else some recv
       let d' := { d with s := addClaim d.s n (.deposit t a r (known != 0)) }; (d', showState d')
     | _, _, _, _, _ => (d, "bad-op")
-  | ["evidence", t, n, e, variant, signer] =>
-    match parseNat? t, parseNat? n, parseNat? e, parseNat? variant, parseNat? signer with
-    | some t, some n, some e, some variant, some signer =>
-      let (s', r) := evidence d.s (t, n, e, variant) (if signer == 0 then none else some signer)
+  | ["evidence", t, n, e, variant, key] =>     -- `key` = id of the remote key that signed (0 = a key nobody registered)
+    match parseNat? t, parseNat? n, parseNat? e, parseNat? variant, parseNat? key with
+    | some t, some n, some e, some variant, some key =>
+      let (s', r) := evidence d.s (t, n, e, variant) key
       let d' := { d with s := s' }
       let js := sortNat s'.jailed
       (d', showRes r ++ " jailed=" ++ showNatList js)
     | _, _, _, _, _ => (d, "bad-op")
+  | ["regkey", v, key] =>
+    match parseNat? v, parseNat? key with
+    | some v, some key =>
+      let (s', r) := registerKey d.s v key
+      ({ d with s := s' }, showRes r)
+    | _, _ => (d, "bad-op")
   | ["estimate", _, _, _] => (d, showState d)   -- recorded by the harness; applied via `endblock … ests`
   | ["endblock", f, h, now, toks, ests] =>
     match parseFault? f, parseNat? h, parseNat? now, parseNatList? toks, parseTriples? ests with
